@@ -34,7 +34,7 @@ namespace TAO_PEGTL_NAMESPACE
             : m_in( in_in ),
               m_end( in_in.end() )
          {
-            m_in.private_set_end( m_in.begin() + std::min( m_in.size(), Maximum ) );
+            m_in.private_set_end( m_in.current() + std::min( m_in.size(), Maximum ) );
          }
 
          bytes_guard( bytes_guard&& ) = delete;
